@@ -79,6 +79,7 @@ type ChanV struct {
 	cap    int
 	closed bool
 	elem   types.Type
+	items  []*chanItem
 }
 
 // HostObj wraps host-side objects used by intrinsics (scanner, readers, buffers, waitgroups).
